@@ -558,6 +558,90 @@ def base_obligations(root, pid, res, st):
     res.oblige('harness:cargo build (hooks on)', st['harness']['ok'], st['harness'].get('msg', '')[-800:])
     res.cov['theorems'] = nthm
 
+# ------------------------------------------------------------------------------------------------ C12 push loops
+def push_loop_specs(tier):
+    totals = [1, 15, 16, 17, 24, 25, 100, 4096, 65536, 1 << 20] if tier == 'quick' else \
+             [1, 15, 16, 17, 24, 25, 36, 37, 100, 1000, 4096, 65535, 65536, 1 << 20, 3 << 20, 1 << 23]
+    pats = ['1', '2', '3', '4', '1234', '41', '1113'] if tier == 'quick' else \
+           ['1', '2', '3', '4', '1234', '4321', '41', '14', '1113', '22221', '333', '1421312']
+    return [(t, p) for t in totals for p in pats]
+
+def push_loop_one(root, total, pat):
+    """runs `runner --pushloop` (real crate) and `model_driver --pushloop` (extracted GrowSim.gstep); returns
+    (property_violation or None, correspondence_difference or None, growth_events)"""
+    rn = os.path.join(root, '.cache', 'harness-target', 'release', 'runner')
+    md = os.path.join(root, '.cache', 'model', 'model_driver')
+    rc1, o1 = sh([rn, '--pushloop', str(total), pat], 600)
+    rc2, o2 = sh([md, '--pushloop', str(total), pat], 600)
+    real = [l.split() for l in o1.splitlines() if l and not l.startswith('WARNING')]
+    mod = [l.split() for l in o2.splitlines() if l and not l.startswith('WARNING')]
+    viol = None
+    if rc1 != 0 or not real or real[-1][0] != 'END':
+        return ('runner --pushloop %d %s failed (exit %s): %s' % (total, pat, rc1, o1[-300:]), None, 0)
+    cap = 16
+    ws = [int(c) for c in pat]
+    for l in real:
+        if l[0] == 'M':
+            viol = viol or ('monitor: ' + ' '.join(l[1:]))
+        if l[0] == 'G':
+            before, after = int(l[1]), int(l[2])
+            asks = [e for e in l[3].split(',') if e and e[0] != 'd']
+            # which piece was being appended: recompute from the pattern
+            w = None
+            acc, i = 0, 0
+            # (pattern sums are periodic: find the piece at offset `before`)
+            per = sum(ws)
+            acc = (before // per) * per
+            i = 0
+            while acc < before:
+                acc += ws[i % len(ws)]; i += 1
+            w = ws[i % len(ws)]
+            if before + w <= cap:
+                viol = viol or ('allocator asked (%s) although %d + %d fits the capacity %d' % (l[3], before, w, cap))
+            if len(asks) != 1:
+                viol = viol or ('%d allocator requests in one append at length %d (%s)' % (len(asks), before, l[3]))
+            if after < before + before // 2:
+                viol = viol or ('growth at length %d gave capacity %d < %d = len + len/2' % (before, after, before + before // 2))
+            if after > max(before + before // 2, before + w):
+                viol = viol or ('growth at length %d (+%d) gave capacity %d > max(len + len/2, need) = %d' % (before, w, after, max(before + before // 2, before + w)))
+            cap = after
+    end = dict(kv.split('=') for kv in real[-1][1:])
+    n, k, cp = int(end['len']), int(end['requests']), int(end['copied'])
+    if k >= 1:
+        h = (k - 1) // 2
+        if 3 ** h > 2 ** h * n:
+            viol = viol or ('%d allocator requests for %d bytes: more than the logarithmic bound 3^((k-1)/2) <= 2^((k-1)/2) * n' % (k, n))
+    if cp > 6 * n:
+        viol = viol or ('%d bytes copied by reallocations for a final length of %d (> 6n)' % (cp, n))
+    diff = None
+    a = [' '.join(l[:3]) if l[0] == 'G' else ' '.join(l) for l in real if l[0] in ('G', 'END')]
+    b = [' '.join(l[:3]) if l[0] == 'G' else ' '.join(l) for l in mod if l[0] in ('G', 'END')]
+    if a != b:
+        j = next((x for x in range(min(len(a), len(b))) if a[x] != b[x]), min(len(a), len(b)))
+        diff = 'real: %s | GrowSim.gstep: %s' % (a[j] if j < len(a) else '(end)', b[j] if j < len(b) else '(end)')
+    return (viol, diff, k)
+
+def push_loops(root, pid, res, tier, stats, only=None):
+    specs = [only] if only else push_loop_specs(tier)
+    import concurrent.futures as cf
+    bad_corr = []
+    nloops = 0
+    nevents = 0
+    with cf.ThreadPoolExecutor(max_workers=8) as ex:
+        outs = list(ex.map(lambda tp: (tp, push_loop_one(root, tp[0], tp[1])), specs))
+    for (total, pat), (viol, diff, k) in outs:
+        nloops += 1; nevents += k
+        if viol and len(res.violations) < 5:
+            rp = write_replay(root, pid, 'pushloop_%d_%s' % (total, pat), 'pushloop %d %s\n# %s\n' % (total, pat, viol))
+            res.violations.append(('push loop of %d bytes (widths %s): %s' % (total, pat, viol), rp, True, 'push_loop'))
+        if diff:
+            bad_corr.append('pushloop %d %s: %s' % (total, pat, diff))
+    res.oblige('push loops: real crate follows the extracted GrowSim.gstep (capacity at every growth, requests, copied) on %d loops' % nloops,
+               not bad_corr, '\n'.join(bad_corr[:5]))
+    res.cov['push_loops'] = nloops
+    res.cov['push_loop_growth_events'] = nevents
+    stats['cases'] += nloops
+
 def new_stats():
     return dict(cases=0, steps=0, compared=0, disagreements=0, monitor_failures=0, outcomes={}, ops={}, nontrivial=set(), disagree_samples=[])
 
@@ -588,7 +672,10 @@ def decide(root, pid, tier, seed, replay=None):
     stats = new_stats()
     if pid in PROPS or replay:
         cfg = PROPS.get(pid, dict(profiles=['valid'], n=(500, 5000)))
-        if replay:
+        if replay and open(replay).read().startswith('pushloop '):
+            t = open(replay).read().split()
+            push_loops(root, pid, res, tier, stats, only=(int(t[1]), t[2]))
+        elif replay:
             explore(root, pid, res, open(replay).read(), 'replay', stats)
         else:
             explore(root, pid, res, corpus_text(root), 'corpus', stats)
@@ -604,6 +691,8 @@ def decide(root, pid, tier, seed, replay=None):
                     done += c; start += c
                     if len(res.violations) >= 5:
                         break
+    if pid == 'C12' and not replay and st['model']['ok'] and st['harness']['ok']:
+        push_loops(root, pid, res, tier, stats)
     # ---- extraction cross-check: the OCaml run of the extracted model against vm_compute inside Coq
     if pid in ('C01', 'C03', 'C05', 'C09', 'C13') and not replay and st['model']['ok'] and st['coq_theories']['ok']:
         import coqcases
